@@ -59,7 +59,8 @@ def gen_cases(rng, tier):
         extra = [[0, 0, 0]]
         for _t in range(1, T):
             extra.append([extra[-1][k] + rng.randint(-200, 200) for k in range(3)])
-        cases.append({'species': species, 'ref': sorted(ref), 'mode': mode, 'coll': rng.choice(['str', 'list', 'set']),
+        cases.append({'empty_other': rng.choice([None, None, None, 'list', 'tuple', 'set']),
+                      'species': species, 'ref': sorted(ref), 'mode': mode, 'coll': rng.choice(['str', 'list', 'set']),
                       'objs': rng.choice(['Element', 'Species']), 'coords': coords, 'extra': extra})
     return cases
 
@@ -74,11 +75,19 @@ def _spec_arg(names, coll):
 def _kw(case, mode=None):
     mode = mode or case['mode']
     present = sorted(set(case['species']))
+    # an empty collection for the other keyword (or for both, in mode 'none') names no species: it means the same as leaving it out
+    empty = {'list': [], 'tuple': (), 'set': set(), None: None}[case.get('empty_other')]
     if mode == 'none':
-        return {}
+        return {} if empty is None else {'fixed_species': empty, 'floating_species': type(empty)()}
     if mode == 'fixed':
-        return {'fixed_species': _spec_arg(case['ref'], case['coll'])}
-    return {'floating_species': _spec_arg([s for s in present if s not in case['ref']], case['coll'])}
+        kw = {'fixed_species': _spec_arg(case['ref'], case['coll'])}
+        if empty is not None:
+            kw['floating_species'] = empty
+        return kw
+    kw = {'floating_species': _spec_arg([s for s in present if s not in case['ref']], case['coll'])}
+    if empty is not None:
+        kw['fixed_species'] = empty
+    return kw
 
 
 def _traj(case, coords):
